@@ -173,14 +173,14 @@ theorem cmd_step (g : Abs.Geom) (h : H) (s : Store) (st : Abs.St) (cmd : Nat) (s
 def isClose : Sf.Op → Bool | .close _ => true | _ => false
 
 /-- ONE STEP of the concrete model, any operation but `close`: the line is accepted, relation and invariant are kept -/
-theorem step_bridge (g : Abs.Geom) (h : H) (s : Store) (st : Abs.St) (op : Sf.Op)
-    (gf : GeomFor g h) (bi : BInv h s) (sim : Sim h s st) (hj : Judged h op) (hc : isClose op = false) :
+theorem step_bridge (hwid : WidenExact) (g : Abs.Geom) (h : H) (s : Store) (st : Abs.St) (op : Sf.Op)
+    (gf : GeomFor g h) (bi : BInv h s) (sim : Sim h s st) (hj : Judged g h op) (hc : isClose op = false) :
     StepGoal g st (absOp op) (absOut op (stepAny h s op).2.2) (stepAny h s op).1 (stepAny h s op).2.1 := by
   cases op with
   | read ix ty fc n =>
     obtain ⟨st', a, b, c⟩ := read_bridge g h s st ty fc n gf bi sim
     exact ⟨st', a, b, c⟩
-  | write ix ty fc n data => exact write_step g h s st ty fc n data gf bi sim hj
+  | write ix ty fc n data => exact write_step hwid g h s st ty fc n data gf bi sim hj.1 hj.2
   | seek ix off whence => exact seek_step g h s st off whence gf bi sim
   | cmdFlag ix cmd size => exact cmd_step g h s st cmd size bi sim hj
   | truncate ix n => exact trunc_step g h s st n gf bi sim hj
@@ -197,8 +197,8 @@ def CloseLast : List Sf.Op → Prop
   | op :: ops => (isClose op = true → ops = []) ∧ CloseLast ops
 
 /-- every sequence, by induction over `runOps`: the abstract state reached accepts the whole transcript -/
-theorem run_bridge (g : Abs.Geom) : ∀ (ops : List Sf.Op) (h : H) (s : Store) (st : Abs.St),
-    GeomFor g h → BInv h s → Sim h s st → (∀ op ∈ ops, Judged h op) → CloseLast ops →
+theorem run_bridge (hwid : WidenExact) (g : Abs.Geom) : ∀ (ops : List Sf.Op) (h : H) (s : Store) (st : Abs.St),
+    GeomFor g h → BInv h s → Sim h s st → (∀ op ∈ ops, Judged g h op) → CloseLast ops →
     ∃ st', Abs.accepts g st (transcript h s ops) = some st' := by
   intro ops
   induction ops with
@@ -213,7 +213,7 @@ theorem run_bridge (g : Abs.Geom) : ∀ (ops : List Sf.Op) (h : H) (s : Store) (
       | close ix => exact ⟨st, by simp [absOp, absOut, Abs.check, Abs.closeOk, outOf, stepAny, transcript, Abs.accepts]⟩
       | _ => simp [isClose] at hc
     · have hc' : isClose op = false := by simpa using hc
-      obtain ⟨st1, hok, sim1, bi1⟩ := step_bridge g h s st op gf bi sim (hj op (by simp)) hc'
+      obtain ⟨st1, hok, sim1, bi1⟩ := step_bridge hwid g h s st op gf bi sim (hj op (by simp)) hc'
       rw [hok]
       have c := SameCfg.stepAny h s op
       exact ih _ _ st1 (GeomFor_congr c gf) bi1 sim1 (fun op' hm => Judged_congr c op' (hj op' (by simp [hm]))) hcl.2
